@@ -10,7 +10,7 @@ RULE = ("expressions generated from the grammar [%]?[-]?digits? dots? ((^|+) par
         "extracted Coq printer), time bases 48..32767, defaults 0..4*tb, plus junk strings over the length alphabet; "
         "non-trivial = distinct (string,tb,default) with at least one part, dot or step marker")
 TRUSTED = ["f32 dot arithmetic of calc_length is exact for |values| < 2^20 (modelled in exact arithmetic; sampled up to that edge)"]
-ASSUMES = ["numerals below 10^6 so that no f32 rounding and no 64-bit overflow occurs"]
+ASSUMES = ["numerals below 10^6 where dots follow (no f32 rounding); undotted numerals of any length (they saturate at 2^31-1)"]
 
 DIG_POOL = ["1", "2", "3", "4", "6", "8", "12", "16", "24", "32", "48", "64", "96", "128", "192", "0", "00", "04", "016",
             "5", "7", "9", "10", "100", "1000", "384", "65535", "999999"]
@@ -27,6 +27,11 @@ def gen_atom(rng, is_head):
     neg = 1 if rng.random() < 0.08 else 0
     ds = rng.choice(DIG_POOL) if rng.random() < 0.8 else str(rng.randrange(0, 100000))
     dots = rng.choice([0, 0, 0, 0, 1, 1, 2, 3, 4])
+    if rng.random() < 0.03:
+        # a numeral of any length denotes its value capped at 2^31-1 (no dots: the dot arithmetic is f32 in the code)
+        ds = rng.choice(["2147483646", "2147483647", "2147483648", "4294967296", "99999999999999999999", "18446744073709551621",
+                         "".join(rng.choice("0123456789") for _ in range(rng.choice([11, 19, 20, 30])))])
+        dots = 0
     return "%d:%d:%s:%d" % (step, neg, ds, dots)
 
 
